@@ -283,6 +283,9 @@ func c11One(c *fw.Ctx, cs c11Case, exploreOrders bool, viaCLI bool) {
 	env := c11Configs[cs.Config]
 	env.Today = sm.FromDayNumber(c11Today)
 	env.NowMins = 14*60 + 38
+	if cs.Config%2 == 1 {
+		env.NowMins = 12*60 + 38 // the noon hour (12:38pm in the 12-hour convention these configurations ask for)
+	}
 	dir := filepath.Join(fw.Scratch(), "c11")
 	os.MkdirAll(dir, 0755)
 	path := filepath.Join(dir, "t.klg")
